@@ -240,8 +240,8 @@ PROPS = {
             "quick": lambda s: gen.fam_life(s, 5),
             "thorough": lambda s: gen.fam_life(s, 0) + gen.fam_gates(s, 0, faults=("close",))},
     "C07": {"level": "model_checking", "model_replay": (40, 400), "mc": {"quick": ["MC_err_cancel"], "thorough": ["MC_err_cancel", "MC_down_cancel", "MCT_one_cancel"]}, "also": ["C16_NoSuccessOnWrongCount"], "hang": True,
-            "quick": lambda s: gen.fam_cancel(s, 5) + gen.fam_gates(s, 4, gates=["cli.alloc", "cli.watch.fired", "cli.cancel.finished", "cli.cancel.emit", "srv.finish.cancelled", "srv.close.emit", "car.sent.c2s.cancel"], faults=("cancel@park", "cancel")),
-            "thorough": lambda s: gen.fam_cancel(s, 0) + gen.fam_gates(s, 0, faults=("cancel",))},
+            "quick": lambda s: gen.fam_cancel(s, 5) + gen.fam_inflight(s) + gen.fam_gates(s, 4, gates=["cli.alloc", "cli.watch.fired", "cli.cancel.finished", "cli.cancel.emit", "srv.finish.cancelled", "srv.close.emit", "car.sent.c2s.cancel"], faults=("cancel@park", "cancel")),
+            "thorough": lambda s: gen.fam_cancel(s, 0) + gen.fam_inflight(s) + gen.fam_gates(s, 0, faults=("cancel",))},
     "C03": {"level": "model_checking", "hang": True, "mc": {"quick": ["MC_two_stepped"], "thorough": ["MC_two_stepped", "MCT_two_stepped_all"]},
             "quick": lambda s: gen.fam_indep(s, 8) + gen.fam_shutdown(s, 3, policies=("eager",))
                                + gen.fam_gates(s, 4, gates=["cli.alloc", "cli.tx.lock", "car.sent.c2s.new", "srv.reject.emit"], faults=("cancel@park", "cancel")),
@@ -281,7 +281,8 @@ PROPS = {
                                + gen.fam_gates(s, 2, gates=["cli.hdr.accept", "cli.finish.cas", "cli.finish.removed", "cli.tx.lock", "srv.close.mid", "srv.finish.removed"],
                                                faults=("cancel@park", "close@park"))
                                # frames still in flight when a deadline ends the RPC on both ends (revision zero included)
-                               + [x for x in gen.fam_cancel(s, 2, policies=("lazy",)) if "deadline" in x["name"]],
+                               + [x for x in gen.fam_cancel(s, 2, policies=("lazy",), fcs=("fc",)) if "deadline" in x["name"]]
+                               + gen.fam_inflight(s),
             "thorough": lambda s: sum((gen.fam_free(s + i, 400) for i in range(4)), []) + [x for x in gen.fam_meta(s, 200, gated=False) if "meta-bin" not in x["name"]] + gen.fam_data(s, 100),
             "technique": "TLA+ trace validation (monitor mode) of free-running concurrent executions; Go race detector attached as auxiliary monitor",
             "text": "thread-safety is decided as conformance of concurrent executions: every free-running execution of a generated concurrent program, recorded with "
